@@ -479,6 +479,25 @@ def c16_top_split(v: str) -> bool:
     return ok
 
 
+def c16_outputs_replace_existing(entry: int, v: int, boost: int) -> bool:
+    """
+    Main output, part output and MATLAB toolbox written into a directory that already holds files of those names
+    (longer, shorter, other line ends, unrelated text): each output is precisely what the same call writes into an empty
+    directory — no remainder of an earlier, longer file follows the new code.  (real temporary directory)
+    pre: 0 <= entry <= 2 and 1 <= v <= 7 and 0 <= boost <= 1
+    post: _
+    """
+    from harness import c14
+    entry, v, boost = pick(entry, 0, 3), pick(v, 1, len(c14.VARIANTS)), pick(boost, 0, 2)
+    with concrete():
+        ok = c14.c14_existing_output.__wrapped__(entry, v, boost) if hasattr(c14.c14_existing_output, "__wrapped__") else c14.c14_existing_output(entry, v, boost)
+        if not ok:
+            global LAST_FAILURE
+            LAST_FAILURE = c14.LAST_FAILURE
+    reached({"entry": entry, "previous": c14.VARIANTS[v], "boost": boost})
+    return ok
+
+
 def conds(tier):
     q = tier == "quick"
     t = (lambda x, y: x) if q else (lambda x, y: y)
@@ -488,6 +507,8 @@ def conds(tier):
                 bounds="file1: all strings of length <= %d over {/,*,newline,space,a,;}; file2: 3 fixed continuations" % (3 if q else 4)),
         xh.Cond(M, "c16_matlab_split", t(420, 1800), kind="shape-bounded", path_timeout=60, examples=["order=1, cut1=2, cut2=5, ending=2", "order=3, cut1=1, cut2=1, ending=1", "order=3, cut1=3, cut2=5, ending=0", "order=0, cut1=7, cut2=9, ending=1"],
                 bounds="4 declaration orders x all pairs of cut points among 10 declarations%s" % (" x 3 file endings" if not q else "; file ending derived")),
+        xh.Cond(M, "c16_outputs_replace_existing", t(200, 600), kind="shape-bounded", examples=["entry=0, v=6, boost=0", "entry=1, v=6, boost=1", "entry=2, v=5, boost=0"],
+                bounds="3 entry points x 7 previous contents of the output paths x serialization"),
         xh.Cond(M, "c16_pybind_parts", t(200, 900), kind="shape-bounded", examples=["nparts=2, boost=1, order=0", "nparts=3, boost=0, order=3", "nparts=1, boost=1, order=3", "nparts=3, boost=1, order=4"], bounds="0-4 additional files x serialization x 5 orders (file stems that end in i, that are suffixes / prefixes of one another)"),
         xh.Cond(M, "c16_scripts", t(420, 1800), kind="shape-bounded", path_timeout=60, examples=["which=0, top=1, ign=2, boost=0, sub=0", "which=1, top=0, ign=0, boost=0, sub=1", "which=0, top=0, ign=0, boost=1, sub=1"],
                 bounds="2 scripts x 5 --top_module_namespaces values x 5 --ignore forms (absent, empty, one, two, a template instantiation whose name contains a comma) x serialization x (submodule | second file)"),
